@@ -242,9 +242,9 @@ def reply_msgs(rng: random.Random, kind: str, addr: int, handle: int) -> list:
     if kind == "notify":
         return [["BluetoothGATTNotifyResponse", {"address": addr, "handle": handle}]]
     if kind == "error":
-        return [["BluetoothGATTErrorResponse", {"address": addr, "handle": handle, "error": pick(rng, [1, 133])}]]
+        return [["BluetoothGATTErrorResponse", {"address": addr, "handle": handle, "error": pick(rng, [1, 133, 18, 0x28, 0x3B, 61, 0x50, 255, 0, 2**31 - 1])}]]  # incl. codes no description table lists
     if kind == "conn":
-        return [["BluetoothDeviceConnectionResponse", {"address": addr, "connected": rng.random() < 0.5, "mtu": 23, "error": pick(rng, [0, 8])}]]
+        return [["BluetoothDeviceConnectionResponse", {"address": addr, "connected": rng.random() < 0.5, "mtu": 23, "error": pick(rng, [0, 8, 0x3D, 18, 255, 2**31 - 1])}]]
     if kind == "disc":
         return [["BluetoothDeviceConnectionResponse", {"address": addr, "connected": False, "error": 0}]]
     if kind == "pair":
@@ -284,7 +284,7 @@ def gen_c16(rng: random.Random) -> dict:
         if do != "ble.services":
             st["timeout"] = pick(rng, [1.0, 2.0, 4.0])
         if do == "ble.connect":
-            st["disconnect_timeout"] = pick(rng, [0.5, 2.0])
+            st["disconnect_timeout"] = pick(rng, [0.5, 2.0, 0.0])
             st["tag"] = f"w{i}"
         if do == "ble.notify":
             st["tag"] = f"w{i}"
